@@ -122,7 +122,7 @@ fn generate_no_params_method(
         fn #method_name(
             self,
         ) -> #crate_path::Result<
-            #crate_path::connection::chain::Chain<'c, S, ReplyParams, ReplyError>
+            #crate_path::connection::chain::Chain<'c, __ZlinkS, __ZlinkReplyParams, __ZlinkReplyError>
         >;
     };
 
@@ -130,16 +130,16 @@ fn generate_no_params_method(
         fn #method_name(
             self,
         ) -> #crate_path::Result<
-            #crate_path::connection::chain::Chain<'c, S, ReplyParams, ReplyError>
+            #crate_path::connection::chain::Chain<'c, __ZlinkS, __ZlinkReplyParams, __ZlinkReplyError>
         > {
             let call = #crate_path::Call::new({
                 #[derive(::serde::Serialize, ::core::fmt::Debug)]
                 #[serde(tag = "method")]
-                enum MethodWrapper {
+                enum __ZlinkMethodWrapper {
                     #[serde(rename = #method_path)]
                     Method,
                 }
-                MethodWrapper::Method
+                __ZlinkMethodWrapper::Method
             });
             self.append(&call)
         }
@@ -169,7 +169,7 @@ fn generate_with_params_method(
             self,
             #(#param_fields,)*
         ) -> #crate_path::Result<
-            #crate_path::connection::chain::Chain<'c, S, ReplyParams, ReplyError>
+            #crate_path::connection::chain::Chain<'c, __ZlinkS, __ZlinkReplyParams, __ZlinkReplyError>
         >
         #combined_where_clause;
     };
@@ -177,14 +177,14 @@ fn generate_with_params_method(
     // Generate unique struct names for this method to avoid conflicts
     let params_struct_name = syn::Ident::new(
         &format!(
-            "{}Params",
+            "__Zlink{}Params",
             snake_case_to_pascal_case(&method_name.unraw().to_string())
         ),
         method_name.span(),
     );
     let wrapper_enum_name = syn::Ident::new(
         &format!(
-            "{}Wrapper",
+            "__Zlink{}Wrapper",
             snake_case_to_pascal_case(&method_name.unraw().to_string())
         ),
         method_name.span(),
@@ -205,7 +205,7 @@ fn generate_with_params_method(
             self,
             #(#param_fields,)*
         ) -> #crate_path::Result<
-            #crate_path::connection::chain::Chain<'c, S, ReplyParams, ReplyError>
+            #crate_path::connection::chain::Chain<'c, __ZlinkS, __ZlinkReplyParams, __ZlinkReplyError>
         >
         #combined_where_clause
         {
